@@ -176,7 +176,8 @@ func (c *converter) ProgramEnd() error {
 			`set /A "_i=!_i!+1"`,
 			"goto :_sch_loop",
 			")",
-			c.callFuncString(sliceLenSetHelper, []string{}, "!%1!", "!_i!"),
+			c.callFuncString(sliceLenGetHelper, []string{}, "!%1!"),
+			fmt.Sprintf("if !_i! gtr !_len! %s", c.callFuncString(sliceLenSetHelper, []string{}, "!%1!", "!_i!")), // a longer destination keeps its tail
 		)
 	}
 
